@@ -149,6 +149,10 @@ func main() {
 					fmt.Printf("%s %s %s DEAD\n", p.Pos(c.Pos()), funcName(fn), name)
 				}
 			})
+		case "globals":
+			globalWrites(p, func(fn *ssa.Function, ins ssa.Instruction, g *ssa.Global) {
+				fmt.Printf("%s %s writes %s\n", p.Pos(ins.Pos()), funcName(fn), g.Name())
+			})
 		case "errloop":
 			all := map[string]bool{}
 			for _, k := range analysedPkgs {
